@@ -351,6 +351,106 @@ def report_inproc(run, env, t, text, r, v, want_vars, kind):
                    "note": "reference = Python wrapping-int64 evaluator; confirm with ./check C07 --replay"})
 
 
+# ---- (D) literal boundary / variable content / subscript side-effect probes (bash alone is the reference) --------------
+
+def _lit_forms(n):
+    """spellings of the non-negative integer n in every literal syntax bash has"""
+    def base(b, digits=ga.DIGITS):
+        out, m = "", n
+        while True:
+            out = digits[m % b] + out
+            m //= b
+            if m == 0:
+                return out
+    return ["%d" % n, "0x%x" % n, "0X%X" % n, "0%o" % n, "2#" + base(2), "8#" + base(8), "16#" + base(16), "36#" + base(36),
+            "64#" + base(64)]
+
+
+def probe_cases():
+    """-> list of (setup, expr). Observed: result or error, x, i and the whole array a."""
+    out = []
+    for n in (2**63 - 1, 2**63, 2**63 + 1, 2**64 - 1, 2**64, 2**64 + 1, 10**23, 2**31, 2**32):
+        for f in _lit_forms(n):
+            out.append(("", f))
+            out.append(("", "-%s" % f))
+            out.append(("", "%s+1" % f))
+            out.append(("x=%s" % f, "x"))
+    blanks = ["' '", "'  '", r"$'\t'", r"$'\n'", "' 3 '", "'3 '", r"$' \t3\n'", "''", "' y'", "' 1 + 2 '"]
+    for v in blanks:
+        for e in ("x", "x+1", "-x", "x++", "++x", "x+=2", "x*y", "!x", "x?4:5", "a[x]", "(x)"):
+            out.append(("x=%s; y=4" % v, e))
+    for e in ("", " ", "  ", "\t"):
+        out.append(("", e))
+    subs = ["a[i++]+=5", "a[i++]++", "++a[i++]", "a[++i]*=2", "a[i+=1]-=1", "a[i++]--", "a[i--]<<=1", "a[a[i++]]+=1", "a[i++]|=8",
+            "a[i++]=7", "a[i++]%=2", "--a[--i]", "a[i++]+=a[i]", "a[j=i+1]+=1", "a[i++]^=1", "x=a[i++]+a[i++]", "a[i++]>>=1",
+            "a[i++]&=1", "a[i++]/=1", "a[i++]-=i"]
+    for e in subs:
+        for i0 in (0, 1, 2):
+            out.append(("a=(1 2 3 4 5); i=%d" % i0, e))
+    return out
+
+
+def render_probes(cases):
+    s = []
+    for k, (setup, expr) in enumerate(cases):
+        s.append("unset x y a i j; " + setup)
+        s.append("r=ERR")
+        s.append("r=$(( %s ))" % expr)
+        s.append('echo "@r %d $r"' % k)
+        s.append('echo "@v %d ${x-U}|${i-U}|${j-U}|${a[*]-U}|${!a[*]}"' % k)
+    return "\n".join(s) + "\n"
+
+
+def run_probes(shell, cases):
+    d = core.new_scratch("a7p")
+    r = core.run_shell(shell, render_probes(cases), d, timeout=60)
+    core.rmtree(d)
+    out = {}
+    for line in r.out.decode("utf-8", "replace").split("\n"):
+        if line.startswith("@r ") or line.startswith("@v "):
+            parts = line.split(" ", 2)
+            try:
+                k = int(parts[1])
+            except ValueError:
+                continue
+            out.setdefault(k, {})[parts[0][1]] = parts[2] if len(parts) > 2 else ""
+    return out, r
+
+
+def probe_layer(run):
+    cases = probe_cases()
+    run.count("probe_cases", len(cases))
+    for lo in range(0, len(cases), 120):
+        chunk = cases[lo:lo + 120]
+        oh, _ = run_probes("bash", chunk)
+        ob, rb = run_probes("brush", chunk)
+        for k, (setup, expr) in enumerate(chunk):
+            run.evaluations += 1
+            h = oh.get(k)
+            if h is None or "r" not in h or "v" not in h:
+                run.count("bash_frame_missing")
+                continue
+            b = ob.get(k)
+            ck = None
+            if b is None or "r" not in b or "v" not in b:
+                o1, r1 = run_probes("brush", [(setup, expr)])
+                b = o1.get(0)
+                ck = core.crash_kind(r1)
+            if b == h and not ck:
+                run.note_nontrivial(("probe", expr if len(expr) < 14 else expr[:3] + "#%d" % len(expr), setup[:6]))
+                run.count("ctx:probe")
+                continue
+            kind = "crash:" + ck if ck else ("missing" if b is None else ("value" if b.get("r") != h.get("r") else "side-effects"))
+            cluster = "probe|" + ("literal" if not setup or setup.startswith("x=") and expr == "x" and setup[2:3].isdigit() else
+                                  "blank-value" if setup.startswith("x=") else "subscript-side-effect")
+            kf = run.findings.match_signature(cluster + "|" + expr)
+            if kf:
+                run.findings.report(kf)
+                continue
+            run.violation("C07|%s|%s|%s" % (cluster, kind, expr[:40]),
+                          {"kind": "probe", "setup": setup, "expr": expr, "brush": b, "bash": h, "crash": ck})
+
+
 def run(run):
     quick = run.tier == "quick"
     scale = getattr(run, "scale", 1.0)
@@ -370,6 +470,7 @@ def run(run):
     run.count("process_batches", len(batches))
     core.pmap(lambda b: judge_batch(run, b), batches)
     inproc_layer(run, quick, scale)
+    probe_layer(run)
     amb = run.counters.get("oracle_ambiguous", 0)
     if amb * 50 > len(cases):
         raise core.Inconclusive("reference evaluator disagrees with bash on %d of %d cases, e.g. %s" % (
@@ -383,6 +484,14 @@ def run(run):
 def replay(path):
     with open(path) as f:
         rp = json.load(f)
+    if rp.get("kind") == "probe":
+        ob, rb = run_probes("brush", [(rp["setup"], rp["expr"])])
+        oh, _ = run_probes("bash", [(rp["setup"], rp["expr"])])
+        print(json.dumps({"setup": rp["setup"], "expr": rp["expr"], "brush": ob.get(0), "bash": oh.get(0)}, indent=1))
+        if ob.get(0) != oh.get(0) or core.crash_kind(rb):
+            print("VIOLATION property=C07 replay=%s" % path)
+            return 1
+        return 0
     if "text" not in rp:
         return 0
     ctx = rp.get("ctx", "expand")
